@@ -49,9 +49,10 @@ MONO_FLOOR = 1e-9       # below this the error sequence is rounding noise
 # (fluctuation amplitude over relaxation rate).  The "small at the deepest level" number is
 # only applied to ADMISSIBLE points kappa <= KAPPA_MAX (DESIGN 1.5); for larger kappa only
 # the monotone decrease is demanded (counted in the evidence).  Calibration on the unchanged
-# tree: optical worst 5.6e-4 (Dmax 5, kappa 1.05) / 9.2e-4 (Dmax 6, kappa 1.49); inter-site
-# worst 3.2e-3 (Dmax 5, kappa 1.49); smallest mutant effects 5e-2 (optical), 9e-2
-# (inter-site).
+# tree: optical worst 2.8e-4 (quick, Dmax 5, kappa 1.05) / 9.2e-4 (thorough, Dmax 6, kappa
+# 1.49); inter-site worst 3.2e-3 (quick, Dmax 5, kappa 1.49) / 7.4e-4 (thorough, Dmax 6);
+# inadmissible points (kappa 1.9-2.1, Dmax 6) reach 5.1e-3.  Smallest effects among the
+# mutants tried: 5e-2 (optical), 9e-2 (inter-site).
 KAPPA_MAX = 1.5
 TOL_OPTICAL = 5e-3
 TOL_INTERSITE = 1.75e-2
